@@ -241,6 +241,13 @@ def p3(ctx):
                     ok = True
         ctx.check(ok, "remove-then-handle:" + C.fkey(b), "the key removed from pending is handed to a handler",
                   "the pending loop removes a key without processing it", where_of(b))
+        # ... every one of them: no request taken off the work-list is dropped
+        hb = {h.bb for h in handlers}
+        for r in rem:
+            heads = {lp[0] for lp in C.iterator_loops(b) if r.bb in b.reach(lp[3], avoid=lp[2])}
+            okh = bool(hb) and b.must_pass(b.after(r.bb), heads | set(b.return_blocks()), hb)
+            ctx.check(okh, "every-request-handled:" + C.fkey(b), "every request taken off the work-list reaches the handler before the next one is taken",
+                      "%s can take a request off EGraph.pending and go on to the next one (or return) without handing it to the handler: the re-canonicalisation / analysis refresh that was requested never happens" % C.short(did), where_of(b, r.bb))
         ctx.roleset("handler", sorted({h.callee.target for h in handlers}))
 
 
